@@ -137,6 +137,9 @@ func classRef(name, vocabPrefix string) map[string]interface{} {
 func genExtension(g *prng.R, idx int) extSpec {
 	nT := g.Range(1, 6)
 	nP := g.Range(1, 8)
+	if idx == 0 {
+		nT = 6 // the first vocabulary of every run has a chain of mixed-parent types, see below
+	}
 	var es extSpec
 	var members []interface{}
 	letters := "ABCDEFGHJKLMNPQRSTUVWXYZ"
@@ -162,6 +165,23 @@ func genExtension(g *prng.R, idx int) extSpec {
 			np = 2
 		}
 		wantLink := g.Chance(1, 6)
+		if idx == 0 {
+			// Types 2..5 of the first vocabulary each extend a referenced
+			// ActivityStreams type AND the previous local type, in that
+			// order: astool must convert a type only after all its parents,
+			// whatever order its maps iterate in (finding 18: it looked no
+			// further than the first referenced parent).
+			wantLink = false
+			if i >= 2 {
+				for len(parents) == 0 {
+					if p := asTypes[g.Intn(len(asTypes))]; !isLinkish[p] {
+						parents = append(parents, p)
+					}
+				}
+				parents = append(parents, es.Types[i-1])
+				np = 2
+			}
+		}
 		for len(parents) < np {
 			var p string
 			if i > 0 && g.Chance(1, 3) {
